@@ -131,7 +131,12 @@ pub fn case(ch: &mut Chooser, kind: &'static str, context: &'static str, derived
     rep.note = format!("{} ; failing form extent {:?}-{:?}, offending token {:?}", o.show(), fe.start, fe.end, laid.marked.as_ref().map(|m| (m.start, m.end)));
     let uses_macro = form_uses(&forms[fault_index], MACROS);
     let uses_lib = form_uses(&forms[fault_index], LIBPROCS);
-    let blame = if uses_macro {
+    // errors that carry a location of their own (unbound variable, non-procedure operator) are located exactly even
+    // under derived forms on the pinned tree: the recorded finding covers only errors located through the enclosing form
+    let self_located = kind == "unbound-read" || (kind == "non-procedure" && matches!(context, "direct" | "non-tail" | "tail"));
+    let blame = if self_located {
+        ""
+    } else if uses_macro {
         ":under-derived-form"
     } else if uses_lib {
         ":under-library-procedure"
